@@ -384,6 +384,9 @@ def slot_rule(repo, res, inv):
     helpers = module_helpers(repo)
     _comp_helper_keeps_order(repo, res, r3)
     _array_or_sequence(repo, res, r3, inv, helpers)
+    from rules import c07
+
+    c07.range_call_sites(repo, res, r3)
     for h in inv:
         if any(t in R3_EXCEPT_HANDLERS for t in h.targets):
             res.ok(h.key + ":exception", r3)
@@ -701,4 +704,6 @@ MUTANTS = [
     Mutant("take-method-default-clip", ARR, "unyt_array.take", 'mode="raise"', 'mode="clip"', ("C06-R8",)),
     Mutant("handler-default-differs", AF, "around", "decimals=0", "decimals=1", ("C06-R8",)),
     Mutant("array-equal-none-sentinel", AF, "array_equal", 'getattr(a1, "units", NULL_UNIT)', 'getattr(a1, "units", None)', ("C06-R7",)),
+    Mutant("histogram2d-range-units-of-x-twice", AF, "_histogram2d", 'units=[getattr(x, "units", None), getattr(y, "units", None)]', 'units=[getattr(x, "units", None), getattr(x, "units", None)]', ("C06-R3",)),
+    Mutant("histogramdd-rows-as-coordinates", AF, "_histogramdd", "    if isinstance(sample, np.ndarray):\n        # an (N, D) array holds one point per row, whereas NumPy reads a\n        # sequence as D coordinate arrays: split the array into its columns\n        sample = [sample] if sample.ndim == 1 else list(sample.T)\n", "", ("C06-R3",)),
 ]
